@@ -766,7 +766,14 @@ def analyse_construct(prog, F, W, fn):
                 if isinstance(ow, tuple) and ow[0] == 'kv' and any(ex.refs_var(a, evar) for a in m.args()) and \
                         any(any(ex.refs_var(a, cv) for cv in cur_edge_vars) for a in m.args()) and same_path:
                     recorded = True
-        if weighted:
+        lossy = [x for x in _LOSSY_COPIES if x[0].fn is fn and loop.is_ancestor_of(x[0])]
+        del _LOSSY_COPIES[:]
+        if weighted and lossy:
+            F.add('R05c', n, fn, whatw, 'violation',
+                  'the weight is copied through `%s %s` while the map\'s value type is %s: integral weights above 2^53 are rounded, the spanner no longer '
+                  'carries the input weights (wider integral instantiations of the same template)' % (lossy[0][2], lossy[0][1], lossy[0][3]),
+                  key='R05c|%s|lossy-copy' % fn.g)
+        elif weighted:
             F.add('R05c', n, fn, whatw, 'ok', wdetail)
         else:
             F.add('R05c', n, fn, whatw, 'violation',
@@ -816,8 +823,22 @@ def stale_table_read(prog, fn, rhs, reach_call):
     return None
 
 
-def is_g_weight_read(W, n, cur_edge_vars):
+_LOSSY_COPIES = []
+
+
+def is_g_weight_read(W, n, cur_edge_vars, depth=0):
     s = n.strip_all()
+    # a local holding the weight read (const WeightType w = get(W_G, e);)
+    v0 = ex.var_of(s)
+    if v0 is not None and depth < 3 and getattr(n, 'fn', None) is not None:
+        d0 = ex.unique_def(n.fn, v0)
+        if d0 is not None and is_g_weight_read(W, d0, cur_edge_vars, depth + 1):
+            prog = n.fn.prog
+            lt = prog.base_type(prog.vars[v0]['ty']) or {}
+            rt = prog.base_type(d0.strip_all().j.get('t')) or {}
+            if lt.get('float') and not rt.get('float') and rt.get('arith'):
+                _LOSSY_COPIES.append((n, prog.vars[v0]['name'], lt.get('s'), rt.get('s')))
+            return True
     if s.k == 'CallExpr' and s.callee and s.callee['g'] == 'boost::get' and len(s.args()) == 2:
         return atom(W.world(s.args()[0])) == 'G' and ex.var_of(s.args()[1]) in cur_edge_vars
     if s.k == 'CXXOperatorCallExpr' and s.op == '[]' and len(s.c) == 3:
